@@ -385,6 +385,7 @@ func famPipeline(dir string, seed int64, tier string) {
 		}
 		w.add(fmt.Sprintf("PipeCase [%s] %s %d %s %s %s", strings.Join(names, "; "), coqTokens(in), f.id, reg, floatTable(in), sobs(cur, err)), desc, len(in) >= 2)
 	}
+	apiFindRefs(rep)
 	w.flush()
 	rep.write(dir)
 }
